@@ -27,6 +27,7 @@ import GqlVerif.Proofs.C01NestedGenW
 import GqlVerif.Proofs.C01NestedGenJ
 import GqlVerif.Proofs.C01NestedGenXW
 import GqlVerif.Proofs.C01NestedGenXJ
+import GqlVerif.Proofs.C01NestedRich
 open GqlVerif.C01
 #print axioms accepts_mono
 #print axioms conforming_int_accepted
@@ -396,3 +397,15 @@ open GqlVerif.C01
 #print axioms GqlVerif.C01NX.nx_roundtrip_eval
 #print axioms GqlVerif.C01NX.nx_canon_value
 #print axioms GqlVerif.C01NX.nestedgen2_overlap_needed
+-- instances cited in the text (docs/REVIEW_5.md findings 2, 3)
+#print axioms GqlVerif.C01NA.nb_class
+#print axioms GqlVerif.C01NA.nb_not_N
+#print axioms GqlVerif.C01NA.nb_roundtrip
+#print axioms GqlVerif.C01AF.af2_class
+#print axioms GqlVerif.C01AF.af2_not_N
+#print axioms GqlVerif.C01AF.af2_roundtrip
+#print axioms GqlVerif.C01AF.af3_class
+#print axioms GqlVerif.C01AF.af3_not_N
+#print axioms GqlVerif.C01AF.af3_roundtrip
+#print axioms GqlVerif.C01N.Rich.rich1_hyps
+#print axioms GqlVerif.C01N.Rich.rich2_hyps
